@@ -675,6 +675,34 @@ def relations(ctx: Ctx, real: Real, rng: random.Random, n: int):
                 ctx.violation(sig, f"RectangularFoV {w_az}x{w_el} deg (off-lattice): boresight ({b2:.4f}, {bel:.4f}), target ({t2:.4f}, {tel:.4f}), "
                               f"margin {margin:.4f} deg: expected {exp}, got {got}",
                               {"w": [w_az, w_el], "b": [b2, bel], "t": [t2, tel], "rotated_by": rr, "expected": exp})
+    # ---- exact zenith: the horizontal projection of boresight and / or target is the ZERO vector (not cos(90 deg) = 6e-17):
+    # reflexivity (identical vectors are inside, for every size), the elevation clause (a target more than half the
+    # elevation extent below a zenith boresight is outside), and no legal direction may raise (seed C14/12)
+    zen = np.array([0.0, 0.0, 1000.0, 0.0, 0.0, 0.0])
+    for w_az, w_el in ((2.0, 2.0), (10.0, 10.0), (40.0, 4.0), (4.0, 40.0), (0.5, 90.0)):
+        fov = guard(ctx, "fov-config", f"RectangularFoV {w_az}x{w_el} deg", {"w": [w_az, w_el]}, real.rect_fov, w_az, w_el)
+        if fov is RAISED:
+            continue
+        for scale in (1.0, 35.786):
+            ctx.case(("zenith-rect", w_az, w_el, scale))
+            got = guard(ctx, "rectfov", f"RectangularFoV {w_az}x{w_el} deg, boresight and target exactly at the zenith",
+                        {"w": [w_az, w_el], "b": "zenith", "t": "zenith", "scale": scale}, fov.inFieldOfView, zen.copy(), zen * scale)
+            if got is not RAISED and not bool(got):
+                ctx.violation("rectfov-not-reflexive-at-zenith", f"RectangularFoV {w_az}x{w_el} deg: a target exactly at the zenith is "
+                              "reported outside the field of view of a boresight exactly at the zenith",
+                              {"w": [w_az, w_el], "b": "zenith", "t": "zenith", "scale": scale})
+        for az in (0.0, 90.0, 180.0, 270.0, 359.5):
+            tel = 90.0 - (w_el / 2 + 1.0)
+            if tel <= 0:
+                continue
+            ctx.case(("zenith-rect-below", w_az, w_el, az))
+            for bb, tt, name in ((zen.copy(), sez_state(az, tel, 800.0), "boresight"), (sez_state(az, tel, 800.0), zen.copy(), "target")):
+                got = guard(ctx, "rectfov", f"RectangularFoV {w_az}x{w_el} deg, {name} exactly at the zenith, the other at azimuth {az} "
+                            f"elevation {tel}", {"w": [w_az, w_el], "zenith": name, "az": az, "el": tel}, fov.inFieldOfView, bb, tt)
+                if got is not RAISED and bool(got):
+                    ctx.violation("rectfov-elevation-clause-at-zenith", f"RectangularFoV {w_az}x{w_el} deg: {name} exactly at the zenith, "
+                                  f"the other direction {w_el / 2 + 1.0} deg lower (azimuth {az}) is reported INSIDE",
+                                  {"w": [w_az, w_el], "zenith": name, "az": az, "el": tel})
     # ---- conic FoV: rotation about the vertical + spherical cosine
     for i in range(n):
         half = math.radians(rng.choice((0.25, 0.5, 1.0, 5.0, 30.0, 80.0)))
